@@ -1,6 +1,6 @@
 """C14: trapezoidal (src/trajtrap.c) and bell-shaped / double-S (src/trajbell.c) velocity-profile trajectories.
 
-Proof over R (coq/Properties_C14.v, 24 theorems): an evaluation layer from a well-formedness predicate on the context
+Proof over R and in the rounding model (coq/Properties_C14.v, 31 theorems): an evaluation layer from a well-formedness predicate on the context
 alone (start/end state, hold outside [0,T], continuity across every phase boundary, vel = pos', acc = vel', jer = acc'
 inside phases, |vel|<=vm, |acc|<=am, |jer|<=jm) and a planning layer (generator result > 0 => well-formed, limits
 respected: all four trapezoid branches; all four double-S cruise variants and the three exits of the bisection loop by a
@@ -21,7 +21,7 @@ import fcorr
 import vlib
 
 META = {
-    "text": "Rocq theorems over the reals (coq/Properties_C14.v, 25 theorems), for ALL requests, contexts, query times "
+    "text": "Rocq theorems (coq/Properties_C14.v, 31 theorems: 24 over the reals, 7 on the termination of the bisection loop in the rounded model), for ALL requests, contexts, query times "
             "and any number of passes of the double-S bisection loop. Evaluation layer, from a well-formedness predicate on "
             "the context alone (WFtrap / WFbell: phase durations non-negative and summing to t, hand-over equations; both "
             "directions of travel, the double-S mirroring is transported by a lemma): pos/vel(/acc) at 0 and t are the "
@@ -41,8 +41,16 @@ META = {
             "a_trajtrap_gen, a_trajbell_gen and the seven evaluation functions from the current sources and each is proved "
             "equal to the hand model; a_trajbell_gen's do-while bisection becomes a Fixpoint on fuel and "
             "tie_a_trajbell_gen states, for ALL fuels and inputs, regenerated function = the model bell_gen_b with its "
-            "bookkeeping (exit tag, pass counter) forgotten, out-of-fuel on one side iff on the other.",
-    "note": "Trusted: Coq kernel/vm_compute (primitive floats), the standard real-number axioms listed by Print Assumptions; "
+            "bookkeeping (exit tag, pass counter) forgotten, out-of-fuel on one side iff on the other. Fuel sufficiency "
+            "(coq/C14/BellFuel.v): at the rounded instance Rnd_ops rnd of the same terms (every + - * / sqrt followed by rnd, "
+            "comparisons exact) every continuing pass multiplies ac by 0.5 exactly once, and for every rnd in which halving a "
+            "format number above 2^-52 is exact the loop entered with a format number ac <= 2^-52*2^j ends within j+1 passes; "
+            "IEEE binary64 round-to-nearest-even is such a rounding (Flocq), so for EVERY finite binary64 am (format number, "
+            "|am| < 2^1024; subnormal, zero, negative included) and all other arguments bell_gen_b never reports out-of-fuel with "
+            "any fuel >= 1077, in particular with the 1200 the correspondence run uses (C14_bell_gen_fuel_binary64(_1200)); with "
+            "the tie, the regenerated a_trajbell_gen returns Some at that instance. Non-vacuity: a request proved to make 52 "
+            "passes at binary64 (C14_bell_fuel_example).",
+    "note": "Trusted: Coq kernel/vm_compute (primitive floats), the standard real-number / classical axioms listed by Print Assumptions (the fuel theorems add none; Flocq 4 is used for binary64 rounding); "
             "the 'same term, different NumOps instance' argument between R and binary64; the hand transcription "
             "coq/C14/TrapDefs.v, BellDefs.v (goto-exit as early returns, the do-while as a step function on fuel; "
             "validated bit for bit against the C on the generated cases, and tied to the translator's reading of the "
@@ -51,11 +59,14 @@ META = {
             "that is proved); the theorems of Properties_C14.v remain about the hand model; gcc -O2 -ffp-contract=off on x86-64 being "
             "IEEE binary64 operation by operation with correctly rounded sqrt. NOT proved: floating-point rounding (the "
             "oracle measures the well-formedness residuals and sampled limits of every C context with tolerance 1e-7); "
-            "termination of the C loop, i.e. fuel SUFFICIENCY (in binary64 ac is halved on every non-exiting pass, so at "
-            "most 1076 passes can happen, but this is not proved: the theorems and the tie hold for every fuel, running "
-            "out of fuel is a distinct result - None in the regenerated function, BX_out_of_fuel in the model - that no "
-            "theorem treats as success; the correspondence run uses fuel 1200 and does not generate am = +-inf, for which "
-            "ac stays infinite and the C loop does not end); that "
+            "termination of the C loop for an INFINITE am (fuel sufficiency is proved in the rounded-real model with "
+            "binary64 round-to-nearest-even, where rnd is a total function on R: overflow, infinities and NaN are outside "
+            "it; the hypothesis |am| < 2^1024 says that am is finite; for am = +-inf ac stays infinite and the C loop does "
+            "not end - the correspondence run does not generate it; that model is tied to the C by the 'every operation "
+            "followed by one rounding, comparisons exact' reading of -O2 -ffp-contract=off SSE2 code, the same reading the "
+            "bit-exact correspondence checks on the generated cases; the theorems over R and the tie hold for every fuel, "
+            "running out of fuel is a distinct result - None in the regenerated function, BX_out_of_fuel in the model - "
+            "that no theorem treats as success); that "
             "a feasible request makes the generators return t>0 (the theorems are conditional on t>0, as the property is). "
             "In R, sqrt(negative)=0 and x/0=0: the planning theorems prove the radicands non-negative and the divisors "
             "non-zero, so they do not rest on these conventions.",
